@@ -21,11 +21,17 @@ TRACED_FILES = (FNAME, EXT_FILE)
 
 
 def make_third_party(kind, log, tag=""):
-    """kind: 'self' (returns itself), 'local' (returns a distinct local function), 'selective' (declines frames named g*)"""
+    """kind: 'self' (returns itself), 'local' (returns a distinct local function), 'selective' (declines frames named g*),
+    'switch' (its local function hands over to a second local function at its first event, as debuggers do)"""
+    def local2(frame, evt, arg):
+        if frame.f_code.co_filename in TRACED_FILES:
+            log.append([tag + "M", evt, frame.f_code.co_name, frame.f_lineno])
+        return local2
+
     def local(frame, evt, arg):
         if frame.f_code.co_filename in TRACED_FILES:
             log.append([tag + "L", evt, frame.f_code.co_name, frame.f_lineno])
-        return local
+        return local2 if kind == "switch" else local
 
     def glob(frame, evt, arg):
         if frame.f_code.co_filename not in TRACED_FILES:
@@ -33,7 +39,7 @@ def make_third_party(kind, log, tag=""):
         log.append([tag + "G", evt, frame.f_code.co_name, frame.f_lineno])
         if kind == "self":
             return glob
-        if kind == "local":
+        if kind in ("local", "switch"):
             return local
         if kind == "selective":
             return None if frame.f_code.co_name.startswith("g") else local
